@@ -176,6 +176,7 @@ Definition scan_inv (t1 : utree) (done : list (list nat * utree)) (st : mp_state
   end.
 
 Lemma reroot_midpoint_scan t t' :
+  2 <= degree (unroot t) ->
   reroot_midpoint t = Ok t' ->
   let t1 := unroot t in
   exists q lf v pA cur ea,
@@ -186,7 +187,7 @@ Lemma reroot_midpoint_scan t t' :
                                  mlp_tip v' = Some (Some p', l') /\ (l' <= cur)%Q) /\
     edge_at (tv_tree v) (tv_slot v) = Some ea /\ mp_result v pA cur ea = Some t'.
 Proof.
-  unfold reroot_midpoint. cbv zeta.
+  intros D0. rewrite (reroot_midpoint_gen_eq t D0). unfold reroot_midpoint_gen.
   set (t1 := unroot t).
   set (f := fun (st : res (mp_state * Q)) (pn : list nat * utree) => _).
   assert (FE : forall l m, fold_left f l (Err m) = Err m) by (induction l; simpl; auto).
